@@ -232,5 +232,6 @@ def run(ctx):
     hygiene.rng_objects_are_locals(ctx)
     no_eigen_random(ctx)
     hygiene.non_reentrant_calls(ctx)
+    hygiene.unsequenced_side_effects(ctx, scope=lambda fn: fn.qname.startswith(('Spectra::RandomScalar<', 'Spectra::SimpleRandom<', 'Spectra::next_long_rand')), min_instances=6)
     ctx.require('generator-effects', 13)
     ctx.require('seed-provenance', 4)
